@@ -6,6 +6,7 @@ import ast
 from ..cfg import CFG
 from ..effects import EffectAnalysis
 from ..repo import FuncInfo, calls_in, dotted, norm_src, walk_no_nested
+from ..match import Matcher, src as msrc
 from .common import kwarg, need_funcs
 
 LB = "acryo/loader/_base.py::LoaderBase."
@@ -381,25 +382,31 @@ def pairing_clause(model, rep, funcs):
         f = funcs.get(a)
         if f is None:
             continue
-        loops = [n for n in walk_no_nested(f.node) if isinstance(n, ast.For)]
-        build = [lp for lp in loops if norm_src(lp.iter) == "self" and any(isinstance(c, ast.Call) and isinstance(c.func, ast.Attribute) and c.func.attr == "append" and dotted(c.func.value) == "all_tasks" for c in ast.walk(lp))]
-        back = [lp for lp in loops if isinstance(lp.iter, ast.Call) and dotted(lp.iter.func) == "zip" and len(lp.iter.args) == 2 and norm_src(lp.iter.args[0]) == "self"]
+        M = Matcher(f)
         rep.instance("O.group", f.loc())
-        ok = len(build) == 1 and len(back) == 1
-        det = f"{len(build)} task-building loop(s) over self, {len(back)} write-back loop(s) over zip(self, ...)"
+        b: dict = {}
+        ok, det = M.all_of(["$all = []", "for $k, $loader in self:\n    ...", "$res = compute($all)",
+                            "for ($k2, $l2), $r in zip(self, $res):\n    ..."], b)
         if ok:
-            second = back[0].iter.args[1]
-            assigns = local_assignments(f)
-            vals = assigns.get(second.id, []) if isinstance(second, ast.Name) else []
-            ok = any(isinstance(v, ast.Call) and dotted(v.func) == "compute" and v.args and norm_src(v.args[0]) == "all_tasks" for v in vals)
-            det += f"; second zip operand {norm_src(second)}"
-            # the per-group write-back uses the zipped loader and its own results
-            wb = [c for c in ast.walk(back[0]) if isinstance(c, ast.Call) and isinstance(c.func, ast.Attribute) and c.func.attr.startswith("_post_align")]
-            tgt = back[0].target
-            names = [norm_src(x) for x in ast.walk(tgt) if isinstance(x, ast.Name)]
-            if not wb or dotted(wb[0].func.value) not in names or not wb[0].args or norm_src(wb[0].args[0]) not in names:
-                ok = False
-                det += "; write-back does not use the zipped (loader, results) pair"
+            build = M.find("for $k, $loader in self:\n    ...", b)[0][0]
+            back = M.find("for ($k2, $l2), $r in zip(self, $res):\n    ...", b)[0][0]
+            # one task list per group, appended in iteration order, built from that group's own loader
+            app = M.find("$all.append($tasks)", b, within=build)
+            ok = len(app) == 1
+            if not ok:
+                det = f"{len(app)} appends to the task list inside the loop over the groups"
+            else:
+                b2 = app[0][1]
+                mk = M.find("$tasks = $loader.construct_mapping_tasks(...)", b2, within=build) or M.find("$tasks = $loader.$$_(...)", b2, within=build)
+                if not mk:
+                    ok, det = False, "the appended task list is not built from the loader of the same iteration"
+            if ok:
+                wb = M.find("$l2.$$_($r, ...)", b, within=back)
+                wb = [x for x in wb if isinstance(x[0], ast.AST)]
+                post = [c for c in ast.walk(back) if isinstance(c, ast.Call) and isinstance(c.func, ast.Attribute) and c.func.attr.startswith("_post_align")]
+                names = (msrc(b["l2"][1]), msrc(b["r"][1]))
+                if not post or dotted(post[0].func.value) != names[0] or not post[0].args or norm_src(post[0].args[0]) != names[1]:
+                    ok, det = False, "write-back does not use the zipped (loader, results) pair"
         rep.ob("O", a, "per-group results are paired with the group they were computed for (same iteration order of self)", ok, det,
                node=f.node, fn=f, clause="1 order", stmt=f"def {f.name} zip")
 
